@@ -1,13 +1,16 @@
 """C02 — a saved session restores to an observationally equivalent session.
 
 families
-  fw     synthetic object graphs (shared references, cycles, inlined objects, generator loaders,
+  fw     synthetic object graphs (shared references, cycles, inlined objects / forests, generator loaders,
          deferred callbacks, clashing / literal-looking labels) through the REAL GlueSerializer /
          GlueUnSerializer; the Lean model predicts names, errors and the restored graph by name
   cls    one case per class of the generated dispatch table: an instance is put into a session, the
          session is saved and restored; the restored object's type and the session's behaviour are
          judged by the Lean Spec (this is the behavioural validation of declaredFaithful/declaredLoud;
          a class without a recipe must be listed in the driver's noRecipeAllowed)
+  rec    every object of a class of the record table (Model/C02Records.lean) in a generated session: the REAL
+         saver's output == Lean encode(fields), Lean decode(real record) == the fields of the REAL restored object,
+         restored fields == saved fields (c02_rec.py)
   sess   data collections built through the public API, include_data=True: snapshot before, after the
          restore, and after saving the restored session AGAIN and restoring that (idempotence)
   sessf  file-backed datasets (load_data), include_data=False, through Application.save_session /
@@ -27,6 +30,7 @@ import numpy as np  # noqa: E402
 
 from harness.props import c02_sess as L  # noqa: E402
 from harness.props import c02_fw as F  # noqa: E402
+from harness.props import c02_rec as RC  # noqa: E402
 from harness.translate import c02 as T  # noqa: E402
 
 
@@ -140,6 +144,55 @@ def fw_random_cb(rng, nmax, labels=LABELS):
     return [0, [[rng.randint(0, 3), rng.choice(labels), fields[i]] for i in range(n)]]
 
 
+def fw_random_forest(rng, nmax, cb=True, labels=LABELS):
+    """aimed at the hypotheses of roundtrip_framework_cycles / _callbacks WITH inlined records (the driver
+    decides): a tree of non-callback edges below a plain main in which some nodes are *inlined* (exactly one
+    `own` edge, never referred to by name, plain class); levels as in fw_random_levels: early edges (ref or
+    own) go strictly down, late edges stay on the level; inlined nodes refer by name to lower named nodes
+    and may inline further nodes; callback edges (named targets only) anywhere when `cb`"""
+    n = rng.randint(2, nmax)
+    named = [True] + [rng.random() < 0.55 for _ in range(n - 1)]
+    gen = [False] * n
+    lev = [4] + [0] * (n - 1)
+    fields = [[] for _ in range(n)]
+    for i in range(1, n):
+        j = rng.randrange(i)
+        kind = "ref" if named[i] else "own"
+        if named[j] and j != 0 and rng.random() < 0.35:
+            lev[i] = lev[j]
+            gen[j] = True
+            fields[j].append(["l", kind, i])
+        elif lev[j] >= 1:
+            lev[i] = lev[j] - 1
+            fields[j].append(["e", kind, i])
+        elif named[j] and j != 0:
+            lev[i] = lev[j]
+            gen[j] = True
+            fields[j].append(["l", kind, i])
+        else:
+            lev[i] = 3
+            fields[0].append(["e", kind, i])
+    for i in range(n):
+        for _ in range(rng.choice([0, 1, 1, 2])):
+            r = rng.random()
+            if r < 0.15:
+                fields[i].append(["e", "lit", rng.randint(0, 9)])
+            elif r < 0.3:
+                fields[i].append(["e", "str", rng.choice(["a", "st__a", ""])])
+            elif r < 0.55 or not named[i]:
+                lower = [j for j in range(n) if named[j] and lev[j] < lev[i]]
+                if lower:
+                    fields[i].append(["e", "ref", rng.choice(lower)])
+            elif gen[i]:
+                same = [j for j in range(n) if named[j] and lev[j] <= lev[i] and j != 0]
+                if same:
+                    fields[i].append(["l", "ref", rng.choice(same)])
+            elif cb:
+                fields[i].append(["c", "ref", rng.choice([j for j in range(n) if named[j]])])
+        rng.shuffle(fields[i])
+    return [0, [[rng.randint(0, 3), rng.choice(labels), fields[i]] for i in range(n)]]
+
+
 class Fw(Family):
     name = "fw"
     exhaustive = False
@@ -163,8 +216,12 @@ class Fw(Family):
                     yield [0, [[1, "a", f0], [2, "a", f1]]]
         n = 12000 if tier == "quick" else 200000
         for i in range(n):
-            m = i % 6
-            if m == 5:
+            m = i % 8
+            if m == 7:     # inlined forests below generator loaders and callbacks
+                yield fw_random_forest(rng, 7, cb=True)
+            elif m == 6:   # inlined forests, generator loaders, no callbacks
+                yield fw_random_forest(rng, 7, cb=False)
+            elif m == 5:
                 yield fw_random_cb(rng, 7)
             elif m == 4:
                 yield fw_random_levels(rng, 7)
@@ -225,7 +282,7 @@ def gen_dataset(rng, i, shape=None):
     names = rng.sample(CNAMES, ncomp)
     comps = []
     for j, nm in enumerate(names):
-        kind = rng.choice(["f", "f", "f", "i", "c", "C", "t", "u", "d", "p", "l"])
+        kind = rng.choice(["f", "f", "f", "i", "c", "C", "C", "t", "u", "d", "p", "l"])
         if shape[0] != "region" and len(shape) > 1 and kind in ("c", "C") and rng.random() < 0.5:
             kind = "f"
         comps.append([kind, nm, rng.randint(0, 99)])
@@ -577,7 +634,7 @@ class Sess(Family):
 
     def cases(self, tier, rng):
         yield from systematic_sessions(tier)
-        n = 2600 if tier == "quick" else 60000
+        n = 2000 if tier == "quick" else 60000
         for i in range(n):
             c = gen_session(rng)
             if i % 11 == 0:
@@ -667,7 +724,8 @@ def _mentions(case, di):
 
 
 D0 = ["d0", [6], [["f", "x", 1], ["f", "y", 2], ["c", "k", 3], ["c", "k2", 8], ["i", "n", 4], ["t", "t", 5], ["d", "dd", 6], ["p", "pp", 7], ["l", "ll", 9], ["l", "l2", 10], ["u", "uu", 4]], None, 1, 1]
-D1 = ["d1", [6], [["f", "a", 11], ["f", "b", 12], ["i", "n", 14], ["u", "uu", 5], ["c", "k", 13], ["C", "kc", 15]], "id", 2, 2]
+# kc: explicit categories, unsorted, every one of them used, units (seed 23: variant 2); kj: the same with jitter('uniform') (seed 9)
+D1 = ["d1", [6], [["f", "a", 11], ["f", "b", 12], ["i", "n", 14], ["u", "uu", 5], ["c", "k", 13], ["C", "kc", 23], ["C", "kj", 9]], "id", 2, 2]
 D2 = ["d2", [2, 2, 3], [["f", "x", 21], ["f", "y", 22], ["f", "z", 23], ["i", "n", 24]], ["aff", 1], None, 3]
 D3 = ["d3", [2, 3], [["f", "x", 31], ["f", "y", 33], ["c", "k", 32]], ["aff", 2], 4, 4]
 D4 = ["d4", [2, 3], [["f", "x", 41], ["i", "n", 42]], None, 5, 5]
@@ -762,6 +820,23 @@ def systematic_sessions(tier):
         for sh in ([3], [2, 3], [2, 2, 2], [], [0]):
             for co in (None, "id", ["aff", m]):
                 yield {"data": [["d", sh, [["f", "x", m], ["i", "n", m + 1]], co, m, m]], "links": [], "groups": [[["mask", 0, 5], None, None]]}
+    # categorical components with an explicit category list in every relation to the labels (the seed selects the
+    # variant: unsorted / rotated / sorted with every category used, unused categories first / last, a duplicate,
+    # a label outside the list), with and without jitter and units, each under selections BY CODE (a changed
+    # category order changes the mask) and by label
+    for v in range(7):
+        for j in (0, 1, 2):
+            seed = v + 7 * j + 21 * ((v + j) % 3)
+            for shape in ([7], [2, 3]):
+                ds = ["dc", shape, [["f", "x", 1], ["C", "k", seed], ["c", "k0", seed], ["C", "k2", (seed * 5 + 2) % 100]], None, None, 0]
+                sels = [["cat", 0, "k", [0]], ["cat", 0, "k", [2]], ["cat", 0, "k", [1, 3]], ["catroi", 0, "k", ["a", "cc"]],
+                        ["and", ["cat", 0, "k", [0, 1]], ["inv", ["cat", 0, "k2", [1]]]]]
+                if tier != "thorough":
+                    sels = [sels[(v + j) % 3], sels[3 + (v + j) % 2]]
+                for sel in sels:
+                    if sel[0] == "catroi" and len(shape) > 1:
+                        continue
+                    yield {"data": [ds], "links": [], "groups": [[sel, None, None]]}
     yield dict(base, groups=[[["unknown-subclass"], None, None]])
     for via in (True,):
         yield dict(base, groups=[[leaves["range"], None, 3]], via_app=True)
@@ -1022,7 +1097,8 @@ RECIPES = {
     "glue.core.roi_pretransforms.RadianTransform": (_st(["roi2", 0, "x", "y", RECT, ["rad", ["x"], ["fsl", None]]]), P_PRE),
     "glue.core.roi_pretransforms.FullSphereLongitudeTransform": (_st(["roi2", 0, "x", "y", RECT, ["fsl", ["rad", ["y"], None]]]), P_PRE),
     CMP + "Component": (_st(["base"]), _comp("x")),
-    CMP + "CategoricalComponent": (_st(["base"]), _comp("k")),
+    # explicit, non-alphabetical category order in which every category occurs + a selection by code
+    CMP + "CategoricalComponent": (_st(["cat", 1, "kc", [0, 2]]), _comp("kc", 1)),
     CMP + "DateTimeComponent": (_st(["base"]), _comp("t")),
     CMP + "DerivedComponent": (_st(["base"]), _comp("dd")),
     CMP + "CoordinateComponent": (_st(["base"]), lambda dc: dc[0].get_component(dc[0].pixel_component_ids[0])),
@@ -1115,6 +1191,46 @@ class Cls(Family):
 
 
 # =============================================================================================
+# rec — the per-class transcriptions against the real savers / loaders
+# =============================================================================================
+
+class RecFam(Sess):
+    """every object of a class of the record table (Model/C02Records.lean) that occurs in a generated session:
+    real saver output == Lean encode(fields), Lean decode(real record) == fields of the real restored object,
+    restored fields == saved fields"""
+    name = "rec"
+    exhaustive = False
+    batch = 12
+    budget_share = 0.8
+    case_timeout = 60.0
+    family_tag = "rec"
+
+    def cases(self, tier, rng):
+        for i, c in enumerate(systematic_sessions(tier)):
+            if tier == "thorough" or i % 2 == 0:      # (the sess family runs all of them)
+                yield c
+        n = 320 if tier == "quick" else 20000
+        for i in range(n):
+            yield gen_session(rng)
+
+    def run_impl(self, case):
+        gc.disable()
+        return RC.run(case)
+
+    def line(self, case, pyout):
+        return sx(["rec", [], pyout])
+
+    def nontrivial(self, case, po):
+        return isinstance(po, list) and po[0] == "ok" and len(po) > 1
+
+    def signature(self, case, po, res):
+        sig = Sess.signature(self, case, po, res)
+        classes = sorted({str(i[0]) for i in po[1:]}) if isinstance(po, list) and po and po[0] == "ok" else []
+        sig["classes"] = "+".join(classes)
+        return sig
+
+
+# =============================================================================================
 
 def pre_build():
     T.write()
@@ -1123,8 +1239,8 @@ def pre_build():
 PROP = Property(
     id="C02",
     title="A saved session restores to an observationally equivalent session",
-    theorems=["C02.names_injective", "C02.disambiguate_total_fresh", "C02.string_prefix_safe", "C02.old_label_reads_as_literal", "C02.roundtrip_framework_partial", "C02.roundtrip_framework_cycles_partial", "C02.roundtrip_framework_callbacks_partial", "C02.declared_ids_denote_declared_names", "C02.dispatch_matches_observed", "C02.table_offenders_nil", "C02.no_silent_fallthrough"],
-    families=[Fw(), Cls(), Sess(), SessFiles()],
+    theorems=["C02.names_injective", "C02.disambiguate_total_fresh", "C02.string_prefix_safe", "C02.old_label_reads_as_literal", "C02.roundtrip_framework", "C02.roundtrip_framework_cycles", "C02.roundtrip_framework_callbacks", "C02.classes_field_faithful", "C02.roundtrip_classes", "C02.declared_ids_denote_declared_names", "C02.dispatch_matches_observed", "C02.table_offenders_nil", "C02.no_silent_fallthrough"],
+    families=[Fw(), Cls(), RecFam(), Sess(), SessFiles()],
     pre_build=pre_build,
     trusted_base=["JSON, base64, np.save/np.load, FITS/HDF5/CSV readers (astropy, h5py, pandas) are trusted codecs",
                   "CPython dict insertion order (registration order of GlueSerializer._objs), generator protocol, bound-method equality"],
